@@ -151,7 +151,10 @@ pub fn c03(known: &Known, max_subs: usize) -> CoreScenario {
     ops.push(Op::PSubscribe(A, 8, s("#"), false, true));
     ops.push(Op::PSubscribe(A, 9, s("?/b"), true, true));
     ops.push(Op::PSubscribe(A, 10, s("a/#/b"), false, false));
-    for (c, tid) in [(A, 1), (A, 2), (B, 5), (B, 6), (A, 8), (B, 77)] {
+    // nested patterns: one subscription's pattern is a segment-wise prefix of another's
+    ops.push(Op::Subscribe(A, 11, s("a"), false, true));
+    ops.push(Op::PSubscribe(B, 12, s("a/b/#"), false, true));
+    for (c, tid) in [(A, 1), (A, 2), (B, 5), (B, 6), (A, 8), (A, 11), (B, 77)] {
         ops.push(Op::Unsubscribe(c, tid));
     }
     ops.push(Op::Disconnect(A));
@@ -230,6 +233,7 @@ pub fn c07(known: &Known, three_clients: bool) -> CoreScenario {
     ops.push(Op::Subscribe(B, 1, s("w"), false, false));
     ops.push(Op::PSubscribe(B, 2, s("g/#"), false, false));
     ops.push(Op::PSubscribe(A, 3, s("#"), false, true));
+    ops.push(Op::Subscribe(A, 7, s("g"), false, true));
     ops.push(Op::SubscribeLs(A, 4, Some(s("g"))));
     ops.push(Op::SubscribeLs(B, 5, None));
     ops.push(Op::SPubInit(A, 6, s("p")));
